@@ -292,7 +292,7 @@ print_unicode(iconv_t cd, int endian, int unicode, char **p, int n)
 		goto error; /* buffer too small, do not print a space instead */
 
 	if ((size_t) -1 == r
-	    || (**p == 0x40 && unicode != 0x0040)) {
+	    || (1 == op - *p && **p == 0x40 && unicode != 0x0040)) {
 		in[0 + endian] = 0x20;
 		in[1 - endian] = 0;
 		ip = in; op = *p;
@@ -461,7 +461,8 @@ vbi_print_page_region(vbi_page *pg, char *buf, int size,
 				goto failure;
 
 			if (table) {
-				*p++ = '\n'; /* XXX convert this (eg utf16) */
+				if (!print_unicode(cd, endian, 0x000A, &p, left))
+					goto failure;
 			} else if (spaces >= (x1 - x0)) {
 				; /* suppress blank line */
 			} else {
@@ -651,15 +652,24 @@ export				(vbi_export *		e,
 
 		row++;
 
-		if (row >= pg->rows) {
-			if (text->term > 0)
-				vbi_export_printf (e, "\e[m\n"); /* reset */
-			else
-				vbi_export_putc (e, '\n');
-			break;
-		} else {
-			vbi_export_putc (e, '\n');
+		if (row >= pg->rows && text->term > 0)
+			vbi_export_printf (e, "\e[m"); /* reset */
+
+		{
+			char *p = text->buf;
+
+			if (!print_unicode (text->cd, endian, 0x000A, &p,
+					    sizeof (text->buf))) {
+				vbi_export_write_error (e);
+				iconv_close (text->cd);
+				return FALSE;
+			}
+
+			vbi_export_write (e, text->buf, p - text->buf);
 		}
+
+		if (row >= pg->rows)
+			break;
 	}
 
 	iconv_close(text->cd);
